@@ -1,14 +1,55 @@
-import os
+# C10 parsing side: from_chars / strings::to_integer / strtol family / ato* / sto*
 PROPERTIES = ['C10', 'C02']
-BOUNDS = {'quick': 'tbd', 'thorough': 'tbd'}
-ASSUMPTIONS = []
+BOUNDS = {
+    'quick': ('text length SN 0..4 enumerated, every character symbolic (all 256 values); from_chars and to_integer: 8- and 16-bit types with base symbolic 2..36 (overflow reachable), '
+              'unsigned/int/unsigned long/long with base symbolic, SN 0..3; strtol/strtoll/strtoul/strtoull/atoi/atol/atoll/stoi/stol/stoll/stoul/stoull: SN 0..4, base symbolic over {0, 2..36}; '
+              '64-bit overflow of strto* is outside the bound (needs >= 13 characters)'),
+    'thorough': ('SN 0..6 for the 8/16-bit types (base symbolic), SN 0..5 for 32/64-bit types and the strtol family; adds char, long long, unsigned long long; '
+                 '32-bit overflow: SN 7 and 8 with base 36 enumerated (from_chars, to_integer); base-10 overflow of 32/64-bit types (11/20 characters) is outside the bound'),
+}
+ASSUMPTIONS = [
+    'C10/from_chars, to_integer: base in 2..36 (documented precondition); [first,last) is its own object of exactly SN bytes',
+    'C10/strto*, sto*: base is 0 or in 2..36 (C standard); the text is a NUL-terminated block of exactly SN+1 bytes (strto*, ato*) or a view of exactly SN bytes (sto*)',
+    'C10/ato*: texts whose value is not representable are excluded (undefined behaviour in C)',
+    'C10/sto*: texts on which std::sto* throws (no conversion -> invalid_argument, not representable -> out_of_range) are excluded: etl has no exceptions and no other error channel there, so the error class cannot be compared',
+    'C10/strto*, sto*, ato*, to_integer: oracle is the reference parser harness/from_chars/refparse.hpp (C standard 7.22.1.4, "C" locale, no errno: the error class is read off the returned limit value and end pointer); model_check.cpp compares it natively with glibc',
+    'C10/to_integer<Int> (default options) is held to strtol semantics at the width of Int for bases 2..36',
+]
+TYPES = {'unsigned char': (8, 0), 'signed char': (8, 1), 'char': (8, 1), 'unsigned short': (16, 0), 'short': (16, 1), 'unsigned': (32, 0), 'int': (32, 1),
+         'unsigned long': (64, 0), 'long': (64, 1), 'unsigned long long': (64, 0), 'long long': (64, 1)}
+CFUNCS = ['q_strtol', 'q_strtoll', 'q_strtoul', 'q_strtoull', 'q_strtol_null', 'q_strtoul_null', 'q_atoi', 'q_atol', 'q_atoll']
+STOFUNCS = ['q_stoi', 'q_stol', 'q_stoll', 'q_stoul', 'q_stoull', 'q_stoi_nullpos', 'q_stoi_def']
+def can_overflow(t, n, base=36):
+    bits, s = TYPES[t]
+    return base ** n - 1 > (1 << (bits - s)) - 1
+US = {'ll_undef_bytes.0': 80, 'll_memcpy.0': 80, 'll_memset.0': 80}
+for _w, _n in ((8, 10), (16, 18), (32, 34), (64, 66)):
+    for _f in ('ctpop', 'ctlz', 'cttz'): US['ll_%s_%d.0' % (_f, _w)] = _n
+def q(entry, cfg, ub, solver='minisat', budget=120):
+    return dict(entry=entry, cfg=cfg, unwind=cfg['SN'] + 3, unwindset=US, budget=budget, ub=ub, nofunc=ub, solver=solver)
 def queries(tier, prop='C10'):
     ub = prop == 'C02'
+    thorough = tier == 'thorough' and not ub      # the C02 (UB build) run rides on the quick grid
     out = []
-    sv = os.environ.get('SV', 'minisat')
-    for t in os.environ.get('TYS', 'int').split(','):
-        for n in [int(x) for x in os.environ.get('NS', '3').split(',')]:
-            cfg = {'TY': t, 'SN': n}
-            for e in os.environ.get('ENTS', 'q_from_chars').split(','):
-                out.append(dict(entry=e, cfg=cfg, unwind=n + 3, budget=300, ub=ub, nofunc=ub, solver=sv.split('+')))
+    narrow = ['unsigned char', 'signed char', 'unsigned short', 'short'] + (['char'] if thorough else [])
+    wide = ['unsigned', 'int', 'unsigned long', 'long'] + (['unsigned long long', 'long long'] if thorough else [])
+    for t in narrow + wide:
+        nmax = (6 if thorough else 4) if t in narrow else (5 if thorough else 3)
+        for n in range(0, nmax + 1):
+            cfg = {'TY': t, 'SN': n, 'WOVF': int(can_overflow(t, n))}
+            sv, bud = ('minisat', 120) if n <= 4 else ('kissat', 900)
+            out.append(q('q_from_chars', cfg, ub, sv, bud))
+            out.append(q('q_to_integer', cfg, ub, sv, bud))
+            if n in (0, 1, 3): out.append(q('q_from_chars_def', dict(cfg, WOVF=int(can_overflow(t, n, 10))), ub, sv, bud))
+    if thorough:
+        for t in ('unsigned', 'int'):
+            for n in (7, 8):
+                cfg = {'TY': t, 'SN': n, 'BASE': 36, 'WOVF': 1}
+                out.append(q('q_from_chars', cfg, ub, 'kissat', 900))
+                out.append(q('q_to_integer', cfg, ub, 'kissat', 900))
+    for n in range(0, (5 if thorough else 4) + 1):
+        cfg = {'TY': 'int', 'SN': n, 'WOVF': int(can_overflow('int', n))}
+        sv, bud = ('minisat', 120) if n <= 4 else ('kissat', 900)
+        for e in CFUNCS + (STOFUNCS if n >= 1 else []):
+            out.append(q(e, cfg, ub, sv, bud))
     return out
